@@ -1233,8 +1233,13 @@ func (fs *c14Findings) add(sig map[string]interface{}, op, rank string, replay m
 	}
 }
 
+// c14Rank orders the inputs that end in the same panic: ordinary worlds first, then fewer arguments, shorter description
 func c14Rank(c *c14Case, variant int) string {
-	return fmt.Sprintf("%02d|%03d|%s|%02d", len(c.Ar), len(c.key()), c.key(), variant)
+	special := 0
+	if strings.HasPrefix(c.W, "low") {
+		special = 1
+	}
+	return fmt.Sprintf("%d|%02d|%03d|%s|%02d", special, len(c.Ar), len(c.key()), c.key(), variant)
 }
 
 func c14Replay(w *c14World, c *c14Case, variant int, b *c14Built, o *c14Outcome, extra map[string]interface{}) map[string]interface{} {
@@ -1812,7 +1817,7 @@ func c14Fuzz(w *c14World, mp *MemPool, n, shard int, nonce map[string]uint64, fi
 		if o.panic != nil {
 			c := &c14Case{W: w.spec.Name, S: s, Ty: "fuzz", Pk: "fuzz"}
 			b := &c14Built{wire: wire, descr: string(p)}
-			finds.add(c14Sig(&o), "fuzz:"+string(p), fmt.Sprintf("99|%06d|%s", len(p), string(p)), c14Replay(w, c, 0, b, &o, map[string]interface{}{"driver": "fuzz"}),
+			finds.add(c14Sig(&o), "fuzz:"+string(p), fmt.Sprintf("2|99|%06d|%s", len(p), string(p)), c14Replay(w, c, 0, b, &o, map[string]interface{}{"driver": "fuzz"}),
 				fmt.Sprintf("panic in layer %s at %s (%s): %s\n world %s, sender %s, random payload %q\n stack: %s",
 					o.panicAt, o.panic.site, o.panic.where, o.panic.val, w.spec.Name, s, string(p), strings.Join(o.panic.frames, " <- ")))
 			hub := mp.Hub()
